@@ -74,6 +74,7 @@ fn main() {
         "prefix" => streams::cidl::prefix_stream(seed, cases, maxlen, &mut ex),
         "tocid" => streams::cidl::tocid_stream(seed, cases, &mut ex),
         "conv" => streams::cidl::conv_stream(seed, cases, &mut ex),
+        "getsize" => streams::cidl::getsize_stream(seed, cases, &mut ex),
         "hash" => streams::cidl::hash_stream(seed, cases, args.iter().any(|a| a == "--exhaustive"), &mut ex),
         "procmsg" => streams::cidl::procmsg_stream(seed, cases, &mut ex),
         "proto" => streams::cidl::proto_stream(seed, cases, maxlen, &mut ex),
